@@ -32,16 +32,14 @@ theorem quot_related (c d : Cls) (hc : isEqImplOf c = .quotient) (hd : instOf d 
     (hne : instOf d c = false) : subOf c d = true := by
   cases c <;> cases d <;> first | rfl | (exact absurd hc (by decide)) | (exact absurd hd (by decide)) | (exact absurd hne (by decide))
 
-/-- a subclass hashes the way its base class does (no modelled subclass overrides `__hash__` differently) -/
+/-- a subclass hashes the way its base class does: every class compared by text is hashed by text -/
 theorem inst_hash (c d : Cls) (hi : instOf d c = true) (hc : eqImplOf c = .strcmp ∨ eqImplOf c = .range) :
-    (hashImplOf c = .canon ∨ hashImplOf c = .rangeCanon) ∧ (hashImplOf d = .canon ∨ hashImplOf d = .rangeCanon)
-    ∨ (c = .InlineCall ∧ d = .InlineCall) := by
+    (hashImplOf c = .canon ∨ hashImplOf c = .rangeCanon) ∧ (hashImplOf d = .canon ∨ hashImplOf d = .rangeCanon) := by
   cases c <;> cases d <;> first
     | (exact absurd hi (by decide))
     | (exact absurd hc (by decide))
-    | (exact Or.inl ⟨Or.inl rfl, Or.inl rfl⟩)
-    | (exact Or.inl ⟨Or.inr rfl, Or.inr rfl⟩)
-    | (exact Or.inr ⟨rfl, rfl⟩)
+    | (exact ⟨Or.inl rfl, Or.inl rfl⟩)
+    | (exact ⟨Or.inr rfl, Or.inr rfl⟩)
 
 theorem instOf_refl (c : Cls) : instOf c c = true := by simp [instOf]
 
@@ -112,41 +110,6 @@ theorem pmEq_true (rec) (a b : Node) (h : pmEq rec a b = true) :
     · exact absurd h (by simp)
 
 
-/-! ## numeric evaluation only succeeds on closed trees -/
-
-mutual
-theorem evalPy_closed : ∀ (b : Node) (w : Int), evalPy b = some w → closedNum b = true
-  | pyInt _, _, _ => rfl
-  | nary k cs, w, h => by
-      cases k <;> simp only [evalPy] at h <;>
-        first
-          | (exact absurd h (by simp))
-          | (simp only [closedNum]; exact evalPyL_closed _ _ cs w h)
-  | pyNone, _, h => by simp [evalPy] at h
-  | sym .., _, h => by simp [evalPy] at h
-  | arr .., _, h => by simp [evalPy] at h
-  | intLit .., _, h => by simp [evalPy] at h
-  | floatLit .., _, h => by simp [evalPy] at h
-  | logicLit _, _, h => by simp [evalPy] at h
-  | strLit _, _, h => by simp [evalPy] at h
-  | bin .., _, h => by simp [evalPy] at h
-  | cmp .., _, h => by simp [evalPy] at h
-  | lnot _, _, h => by simp [evalPy] at h
-  | call .., _, h => by simp [evalPy] at h
-  | castE .., _, h => by simp [evalPy] at h
-  | range .., _, h => by simp [evalPy] at h
-theorem evalPyL_closed : ∀ (f : Int → Int → Int) (acc : Int) (cs : List Node) (w : Int),
-    evalPyL f acc cs = some w → closedNumL cs = true
-  | _, _, [], _, _ => rfl
-  | f, acc, c :: cs, w, h => by
-      simp only [evalPyL] at h
-      cases hc : evalPy c with
-      | none => simp [hc] at h
-      | some v =>
-        simp only [hc] at h
-        simp only [closedNumL, evalPy_closed c v hc, evalPyL_closed f (f acc v) cs w h, Bool.and_self]
-end
-
 /-! ## one step of the symmetry argument -/
 
 theorem special_not_strcmp {s : Node} (hs : Special s) : eqImplOf (cls s) ≠ .strcmp := by
@@ -181,7 +144,7 @@ theorem strcmpEq_sym (rec) (a b : Node) (hs1 : subOf (cls b) (cls a) = false) (h
 /-- a node of a special class against a node of a `StrCompareMixin.__eq__` class, outside the exceptions:
 both methods say `False` (or `NotImplemented`) -/
 theorem special_vs_strcmp (rec) (s t : Node) (hs : Special s) (ht : eqImplOf (cls t) = .strcmp)
-    (hfire : shortcutFires rec s t = false) (hfe : KnownFloatEval s t = false) :
+    (hfire : shortcutFires rec s t = false) :
     (eqm rec s t = none ∨ eqm rec s t = some false) ∧ eqm rec t s = some false := by
   have hns := special_not_strcmp hs
   constructor
@@ -191,20 +154,7 @@ theorem special_vs_strcmp (rec) (s t : Node) (hs : Special s) (ht : eqImplOf (cl
     | pyNone => left; cases t <;> first | rfl | (exact (bad ht (by simp [cls, eqImplOf])).elim)
     | intLit v k => right; cases t <;> first | rfl | (exact (bad ht (by simp [cls, eqImplOf])).elim)
     | strLit s => right; cases t <;> first | rfl | (exact (bad ht (by simp [cls, eqImplOf])).elim)
-    | floatLit s k =>
-      right
-      cases t with
-      | nary kk cs =>
-        have hc : closedNum (nary kk cs) = false := by
-          simp [KnownFloatEval, cls, isPyInt] at hfe; exact hfe.1
-        have : evalPy (nary kk cs) = none := by
-          cases he : evalPy (nary kk cs) with
-          | none => rfl
-          | some w => rw [evalPy_closed _ w he] at hc; exact absurd hc (by simp)
-        simp [eqm, cls, eqImplOf, this]
-      | pyInt w => exact (bad ht (by simp [cls, eqImplOf])).elim
-      | floatLit s2 k2 => exact (bad ht (by simp [cls, eqImplOf])).elim
-      | _ => rfl
+    | floatLit s k => right; cases t <;> first | rfl | (exact (bad ht (by simp [cls, eqImplOf])).elim)
     | range k lo hi st =>
       right
       have hr : eqImplOf (cls (range k lo hi st)) = .range := by rw [cls, rangeK_range]
@@ -324,15 +274,11 @@ theorem special_agree (rec) (a b : Node) (ha : Special a) (hb : Special b)
     | floatLit w kk2 => simp [eqm, cls, eqImplOf] at hx hy; (first | rw [← hx, ← hy] | rw [hx, hy])
 
 
-theorem KnownFloatEval_comm (a b : Node) : KnownFloatEval a b = KnownFloatEval b a := by
-  unfold KnownFloatEval; exact Bool.or_comm _ _
-
 /-- one step of the symmetry argument: with neither class a proper subclass of the other, outside the
 exceptions, the two `__eq__` methods agree whenever both give an answer -/
 theorem eqm_agree (rec : Node → Node → Bool) (a b : Node)
     (hs1 : subOf (cls b) (cls a) = false) (hs2 : subOf (cls a) (cls b) = false)
     (h1 : shortcutFires rec a b = false) (h2 : shortcutFires rec b a = false)
-    (h3 : KnownFloatEval a b = false)
     (hki : ∀ v k k2, a = intLit v k → b = intLit v k2 → rec k k2 = rec k2 k)
     (hkf : ∀ s k k2, a = floatLit s k → b = floatLit s k2 → rec k k2 = rec k2 k)
     (x y : Bool) (hx : eqm rec a b = some x) (hy : eqm rec b a = some y) : x = y := by
@@ -342,14 +288,13 @@ theorem eqm_agree (rec : Node → Node → Bool) (a b : Node)
       simp only [Option.some.injEq] at hx hy
       rw [← hx, ← hy]; exact strcmpEq_sym rec a b hs1 hs2
     · have hsb := special_of_not_strcmp b hb
-      have h3' : KnownFloatEval b a = false := by rw [KnownFloatEval_comm]; exact h3
-      obtain ⟨h', h''⟩ := special_vs_strcmp rec b a hsb ha h2 h3'
+      obtain ⟨h', h''⟩ := special_vs_strcmp rec b a hsb ha h2
       rw [h''] at hx
       rcases h' with h' | h' <;> rw [h'] at hy <;> simp at hx hy
       rw [hx, hy]
   · have hsa := special_of_not_strcmp a ha
     by_cases hb : eqImplOf (cls b) = .strcmp
-    · obtain ⟨h', h''⟩ := special_vs_strcmp rec a b hsa hb h1 h3
+    · obtain ⟨h', h''⟩ := special_vs_strcmp rec a b hsa hb h1
       rw [h''] at hy
       rcases h' with h' | h' <;> rw [h'] at hx <;> simp at hx hy
       rw [hx, hy]
@@ -358,7 +303,6 @@ theorem eqm_agree (rec : Node → Node → Bool) (a b : Node)
 /-- Python's `==` gives the same answer in both operand orders, outside the exceptions -/
 theorem dispatch_sym (rec : Node → Node → Bool) (a b : Node)
     (h1 : shortcutFires rec a b = false) (h2 : shortcutFires rec b a = false)
-    (h3 : KnownFloatEval a b = false)
     (hki : ∀ v k k2, a = intLit v k → b = intLit v k2 → rec k k2 = rec k2 k)
     (hkf : ∀ s k k2, a = floatLit s k → b = floatLit s k2 → rec k k2 = rec k2 k) :
     dispatch rec a b = dispatch rec b a := by
@@ -377,25 +321,25 @@ theorem dispatch_sym (rec : Node → Node → Bool) (a b : Node)
       | some x =>
         cases hy : eqm rec b a with
         | none => rfl
-        | some y => exact eqm_agree rec a b hs1 hs2 h1 h2 h3 hki hkf x y hx hy
+        | some y => exact eqm_agree rec a b hs1 hs2 h1 h2 hki hkf x y hx hy
 
 /-- symmetry at every fuel level -/
-theorem sym_fuel (K : Node → Node → Bool) (hK : ∀ a b, K a b = false → KnownFloatEval a b = false) :
+theorem sym_fuel (K : Node → Node → Bool) :
     ∀ (n : Nat) (a b : Node), excF K n a b = false → pyEqF n a b = pyEqF n b a
   | 0, _, _, _ => rfl
   | n + 1, a, b, h => by
       simp only [excF, Bool.or_eq_false_iff] at h
-      obtain ⟨⟨⟨h1, h2⟩, h3⟩, h4⟩ := h
+      obtain ⟨⟨⟨h1, h2⟩, _⟩, h4⟩ := h
       simp only [pyEqF]
-      apply dispatch_sym _ _ _ h1 h2 (hK _ _ h3)
+      apply dispatch_sym _ _ _ h1 h2
       · intro v k k2 ea eb
         subst ea eb
         simp at h4
-        exact sym_fuel K hK n k k2 h4
+        exact sym_fuel K n k k2 h4
       · intro s k k2 ea eb
         subst ea eb
         simp at h4
-        exact sym_fuel K hK n k k2 h4
+        exact sym_fuel K n k k2 h4
 
 
 /-! ## hash consistency -/
@@ -405,40 +349,28 @@ theorem hkey_canon (a : Node) (h : hashImplOf (cls a) = .canon ∨ hashImplOf (c
   cases a <;> split_kinds <;>
     simp [hkey, cls, SymK.cls, NaryK.cls, BinK.cls, RangeK.cls, hashImplOf] at h ⊢
 
-theorem isCall_of_cls (a : Node) (h : cls a = .InlineCall) : isCall a = true := by
-  cases a <;> split_kinds <;> simp [cls, SymK.cls, NaryK.cls, BinK.cls, RangeK.cls, isCall] at h ⊢
-
-/-- `StrCompareMixin.__eq__` answering True forces equal hash keys (outside `KnownCallHash`) -/
+/-- `StrCompareMixin.__eq__` answering True forces equal hash keys -/
 theorem strcmpEq_hash (rec) (a b : Node) (ha : eqImplOf (cls a) = .strcmp ∨ eqImplOf (cls a) = .range)
-    (hc : KnownCallHash a b = false) (h : strcmpEq rec a b = true) : hkey a = hkey b := by
+    (h : strcmpEq rec a b = true) : hkey a = hkey b := by
   unfold strcmpEq at h
   split at h
   · rename_i hi
     have hcan : canon a = canon b := by simpa using h
-    rcases inst_hash (cls a) (cls b) hi ha with ⟨h1, h2⟩ | ⟨h1, h2⟩
-    · rw [hkey_canon a h1, hkey_canon b h2, hcan]
-    · have := isCall_of_cls a h1; have := isCall_of_cls b h2
-      simp_all [KnownCallHash]
+    obtain ⟨h1, h2⟩ := inst_hash (cls a) (cls b) hi ha
+    rw [hkey_canon a h1, hkey_canon b h2, hcan]
   · exact (pmEq_true rec a b h).1
 
 theorem KnownBareVsLit_comm (a b : Node) : KnownBareVsLit a b = KnownBareVsLit b a := by
   unfold KnownBareVsLit; exact Bool.or_comm _ _
-theorem KnownCallHash_comm (a b : Node) : KnownCallHash a b = KnownCallHash b a := by
-  unfold KnownCallHash; rw [bne_comm' (hkey a) (hkey b), Bool.and_comm (isCall a)]
-theorem KnownHash_comm (a b : Node) : KnownHash a b = KnownHash b a := by
-  unfold KnownHash; rw [KnownFloatEval_comm, KnownBareVsLit_comm, KnownCallHash_comm]
-
 /-- one `__eq__` method answering True forces equal hash keys, outside the exceptions -/
 theorem eqm_true_hash (rec : Node → Node → Bool) (a b : Node)
-    (h1 : shortcutFires rec a b = false) (hK : KnownHash a b = false)
+    (h1 : shortcutFires rec a b = false) (hbl : KnownBareVsLit a b = false)
     (hki : ∀ v k k2, a = intLit v k → b = intLit v k2 → rec k k2 = true → hkey k = hkey k2)
     (hkf : ∀ s k k2, a = floatLit s k → b = floatLit s k2 → rec k k2 = true → hkey k = hkey k2)
     (hx : eqm rec a b = some true) : hkey a = hkey b := by
-  simp only [KnownHash, Bool.or_eq_false_iff] at hK
-  obtain ⟨⟨hfe, hbl⟩, hch⟩ := hK
   by_cases ha : eqImplOf (cls a) = .strcmp
   · rw [eqm_strcmp _ _ _ ha] at hx
-    exact strcmpEq_hash rec a b (Or.inl ha) hch (by simpa using hx)
+    exact strcmpEq_hash rec a b (Or.inl ha) (by simpa using hx)
   · cases special_of_not_strcmp a ha with
     | pyInt v =>
       cases b <;> simp [eqm, cls, eqImplOf] at hx
@@ -462,20 +394,13 @@ theorem eqm_true_hash (rec : Node → Node → Bool) (a b : Node)
         subst hv
         have := hkf s k _ rfl rfl hr
         rw [hkey, hkey]; simp [cls, hashImplOf, this]
-      | nary kk cs =>
-        simp only [eqm, cls, eqImplOf] at hx
-        cases he : evalPy (nary kk cs) with
-        | none => simp [he] at hx
-        | some w =>
-          have := evalPy_closed _ w he
-          simp [KnownFloatEval, cls, isPyInt, this] at hfe
       | _ => simp [eqm, cls, eqImplOf] at hx
     | strLit s =>
       cases b <;> simp [eqm, cls, eqImplOf] at hx
       subst hx; rfl
     | range k lo hi st =>
       rw [eqm_range_nofire _ _ _ _ _ _ h1] at hx
-      exact strcmpEq_hash rec _ b (Or.inr (by rw [cls, rangeK_range])) hch (by simpa using hx)
+      exact strcmpEq_hash rec _ b (Or.inr (by rw [cls, rangeK_range])) (by simpa using hx)
 
 theorem dispatch_true (rec) (a b : Node) (h : dispatch rec a b = true) :
     eqm rec a b = some true ∨ eqm rec b a = some true := by
@@ -483,11 +408,8 @@ theorem dispatch_true (rec) (a b : Node) (h : dispatch rec a b = true) :
   split at h <;>
     (cases hx : eqm rec a b <;> cases hy : eqm rec b a <;> simp_all)
 
-theorem KnownHash_floatEval (a b : Node) (h : KnownHash a b = false) : KnownFloatEval a b = false := by
-  simp only [KnownHash, Bool.or_eq_false_iff] at h; exact h.1.1
-
 /-- hash consistency at every fuel level -/
-theorem hash_fuel : ∀ (n : Nat) (a b : Node), pyEqF n a b = true → excF KnownHash n a b = false → hkey a = hkey b
+theorem hash_fuel : ∀ (n : Nat) (a b : Node), pyEqF n a b = true → excF KnownBareVsLit n a b = false → hkey a = hkey b
   | 0, _, _, h, _ => by simp [pyEqF] at h
   | n + 1, a, b, h, he => by
       simp only [excF, Bool.or_eq_false_iff] at he
@@ -498,10 +420,10 @@ theorem hash_fuel : ∀ (n : Nat) (a b : Node), pyEqF n a b = true → excF Know
         · intro v k k2 ea eb hr; subst ea eb; simp at h4; exact hash_fuel n k k2 hr h4
         · intro s k k2 ea eb hr; subst ea eb; simp at h4; exact hash_fuel n k k2 hr h4
       · symm
-        apply eqm_true_hash _ b a h2 (by rw [KnownHash_comm]; exact h3) _ _ hx
+        apply eqm_true_hash _ b a h2 (by rw [KnownBareVsLit_comm]; exact h3) _ _ hx
         · intro v k k2 ea eb hr; subst ea eb; simp at h4
-          exact (hash_fuel n k2 k (by rw [sym_fuel KnownHash KnownHash_floatEval n k2 k h4]; exact hr) h4).symm
+          exact (hash_fuel n k2 k (by rw [sym_fuel KnownBareVsLit n k2 k h4]; exact hr) h4).symm
         · intro s k k2 ea eb hr; subst ea eb; simp at h4
-          exact (hash_fuel n k2 k (by rw [sym_fuel KnownHash KnownHash_floatEval n k2 k h4]; exact hr) h4).symm
+          exact (hash_fuel n k2 k (by rw [sym_fuel KnownBareVsLit n k2 k h4]; exact hr) h4).symm
 
 end LokiModel.C11
